@@ -21,7 +21,7 @@ from vlib.shrink import shrink_seq
 
 ID = "C04"
 LEVEL = "exploration"
-BUDGET = {"quick": 100, "thorough": 1200}
+BUDGET = {"quick": 200, "thorough": 1200}
 RULE = (
     "case = (parser variant, token list of a generated well-formed document, two "
     "random layouts + the canonical single-blank layout). Separators are runs of "
